@@ -584,6 +584,22 @@ fn stream_kind(e: Exec, which: &str, kind: &str) -> Exec {
     }
 }
 
+/// Strings that are not valid UTF-8 travel through scenarios, traces and the specification as "\u{1}hex:<hex digits>"
+/// (reversible); everything else as itself.
+fn enc_bytes(b: &[u8]) -> String {
+    match std::str::from_utf8(b) {
+        Ok(s) => s.to_string(),
+        Err(_) => format!("\u{1}hex:{}", b.iter().map(|x| format!("{:02x}", x)).collect::<String>()),
+    }
+}
+fn dec_os(s: &str) -> std::ffi::OsString {
+    use std::os::unix::ffi::OsStringExt;
+    match s.strip_prefix("\u{1}hex:") {
+        Some(h) => std::ffi::OsString::from_vec(unhex(h)),
+        None => std::ffi::OsString::from(s),
+    }
+}
+
 fn apply_op(e: Exec, op: &Value) -> Exec {
     let a = op.as_array().unwrap();
     let s = |i: usize| a[i].as_str().unwrap().to_string();
@@ -593,17 +609,17 @@ fn apply_op(e: Exec, op: &Value) -> Exec {
             let l: Vec<String> = a[1].as_array().unwrap().iter().map(|x| x.as_str().unwrap().to_string()).collect();
             e.args(&l)
         }
-        "env" => e.env(s(1), s(2)),
+        "env" => e.env(dec_os(&s(1)), dec_os(&s(2))),
         "env_extend" => {
-            let l: Vec<(String, String)> = a[1].as_array().unwrap().iter()
-                .map(|kv| (kv[0].as_str().unwrap().to_string(), kv[1].as_str().unwrap().to_string())).collect();
+            let l: Vec<(std::ffi::OsString, std::ffi::OsString)> = a[1].as_array().unwrap().iter()
+                .map(|kv| (dec_os(kv[0].as_str().unwrap()), dec_os(kv[1].as_str().unwrap()))).collect();
             e.env_extend(&l)
         }
-        "env_remove" => e.env_remove(s(1)),
+        "env_remove" => e.env_remove(dec_os(&s(1))),
         "env_clear" => e.env_clear(),
         // not a builder call: the process environment changes while the command is being put together
         "setenv_proc" => {
-            std::env::set_var(s(1), s(2));
+            std::env::set_var(dec_os(&s(1)), dec_os(&s(2)));
             e
         }
         "cwd" => e.cwd(s(1)),
@@ -658,7 +674,10 @@ fn run_terminator(e: Exec, term: &str) -> Result<(), PopenError> {
 fn run_builder(v: &Value, out: &mut Vec<String>) {
     let ops = v["ops"].as_array().unwrap();
     let term = v["term"].as_str().unwrap();
-    let penv: Vec<Value> = std::env::vars_os().map(|(k, v)| json!([k.to_string_lossy(), v.to_string_lossy()])).collect();
+    let penv: Vec<Value> = {
+        use std::os::unix::ffi::OsStrExt;
+        std::env::vars_os().map(|(k, v)| json!([enc_bytes(k.as_bytes()), enc_bytes(v.as_bytes())])).collect()
+    };
     let pcwd = std::env::current_dir().unwrap().to_string_lossy().into_owned();
     out.push(json!({"e":"bpre","penv":penv,"pcwd":pcwd,"base_argv":[vchild(), "@exit", "0"]}).to_string());
     unsafe { slog::LOG_EXEC_ARGS = true };
@@ -701,7 +720,7 @@ fn run_builder(v: &Value, out: &mut Vec<String>) {
     if let Some(e) = fin {
         runs.push(("final".to_string(), e));
     }
-    let unset_after: Vec<String> = ops.iter().filter(|op| op[0].as_str() == Some("setenv_proc")).map(|op| op[1].as_str().unwrap().to_string()).collect();
+    let unset_after: Vec<std::ffi::OsString> = ops.iter().filter(|op| op[0].as_str() == Some("setenv_proc")).map(|op| dec_os(op[1].as_str().unwrap())).collect();
     // run every command obtained (clone originals with a plain join-like terminator of their own)
     for (name, e) in runs {
         slog::reset();
@@ -739,13 +758,13 @@ fn run_builder(v: &Value, out: &mut Vec<String>) {
             for _ in 0..100 {
                 if let Ok(s) = fs::read_to_string(&p) {
                     if let Ok(rj) = serde_json::from_str::<Value>(&s) {
-                        let dec = |h: &Value| String::from_utf8_lossy(&unhex(h.as_str().unwrap())).into_owned();
+                        let dec = |h: &Value| enc_bytes(&unhex(h.as_str().unwrap()));
                         let argv: Vec<String> = rj["argv"].as_array().unwrap().iter().map(dec).collect();
                         let env: Vec<Value> = rj["env"].as_array().unwrap().iter().map(|h| {
-                            let kv = dec(h);
-                            match kv.find('=') {
-                                Some(i) => json!([kv[..i].to_string(), kv[i + 1..].to_string()]),
-                                None => json!([kv, ""]),
+                            let kv = unhex(h.as_str().unwrap());
+                            match kv.iter().position(|b| *b == b'=') {
+                                Some(i) => json!([enc_bytes(&kv[..i]), enc_bytes(&kv[i + 1..])]),
+                                None => json!([enc_bytes(&kv), ""]),
                             }
                         }).collect();
                         rep = json!({"have":true,"argv":argv,"env":env,"cwd":dec(&rj["cwd"])});
